@@ -6,7 +6,7 @@ CONSTANTS
   Shape <- MC_Shape
   BlockInfo <- MC_BlockInfo
   LogNames <- MC_LogNames
-  TraceSteps <- MC_Trace3
+  TraceSteps <- MC_Trace2
   FuncBodies <- MC_FuncBodies
   MaxHist = 5
   AsFound_VarListCached = FALSE
@@ -14,6 +14,7 @@ CONSTANTS
   Hyp_IdResetPerModel = FALSE
   Hyp_SharedFunctions = FALSE
   Hyp_RhsCachedByName = FALSE
+  Hyp_SteadyOneShot = FALSE
 INVARIANT TypeOK
 INVARIANT C17_HistoryIndependent
 INVARIANT C17_ReparseClean
